@@ -152,8 +152,10 @@ func TestMC_C21(t *testing.T) {
 	c := verifmc.Start(t, "C21", "model_checking")
 	defer c.Finish()
 	c.SetRule("base part: chain A finalizes a node-pledge / mint (consensus-class singleton) snapshot, chain B finalizes N ordinary snapshots, both through the real cosiHandleFinalization on an on-disk store; for every crash cut k (commit k and later fail) every interleaving of the two goroutines at commit granularity up to the on-disk preemption bound (quick 0: both non-preemptive orders; thorough 2); after each: close, reopen, real SetupNode, then the invariant 'consensus snapshot durable => last recorded consensus operation is it'. " +
+		"long-window part (sequential, in memory): recorded mint A, then g in {0,1,99,100,101,102,200,201,202,301,302,303,402,403,404,498,499,500} ordinary single-transaction snapshots of other chains (or m in {19,20,21,25} batch snapshots of 25 transactions), then mint B finalized by WriteSnapshot with the stop before its consensus record, then k in {1,3} later ordinary snapshots (batch variant k=1); node abandoned, real SetupNode; B is inside the repository's 500-entry repair window in every case, so the record after restart must be B. " +
 		"history part: the base workloads again in memory (recorded = genesis) plus the product {B = mint | pledge} x {recorded consensus transaction A re-included by a snapshot of another chain before B: no | yes} x {timestamps of the other chain's ordinary snapshots relative to recorded consensus snapshot A: older | equal | newer (thorough: also ordered pairs)}; history = prefix [A finalized+recorded, re-inclusion R] then thread A [B] || thread B [ordinary snapshots]; every crash cut of the WHOLE history (prefix commits included) x every interleaving of the concurrent part at commit granularity up to the preemption bound; after each: node abandoned, real SetupNode over the committed state, then 'consensus record == last finalized consensus snapshot in topological order (a re-inclusion of the recorded transaction does not move it)'")
 	c.Assume("a Badger transaction commit is the atomic durable unit (crash points are commit boundaries of the snapshot DB)", "commits are the only scheduling points; kernel/topology.go's sequence mutex and the store mutex are modelled by the scheduler", "consensus-class operations exercised: node pledge (through the complete cosiHandleFinalization) and mint (through the post-validation tail: takeover lock, persist, AddSnapshot, reloadConsensusState); remove/custodian update share the pledge branch of reloadConsensusState",
+		"long-window part: the ordinary snapshots are storage-level finalizations (lock, WriteTransaction, WriteSnapshot at the next topological position) of fresh custodian-signed deposits; the repair window promised is the repository's own (the most recent 500 topology entries)",
 		"history part: the store is an in-memory Badger that survives the crash as committed (no close/reopen; the base part does the on-disk reopen); the re-inclusion R goes through the post-validation tail (AddSnapshot + reloadConsensusState) and lands before B is proposed (a re-inclusion validated before and written after B's record is a live-path matter, not a crash matter)")
 	tStart := time.Now()
 	base := mcScratchDir("c21-")
@@ -248,6 +250,10 @@ func TestMC_C21(t *testing.T) {
 		}()
 	}
 
+	// ---- long-window part: sequential cases, in memory, beside the on-disk pool
+	c21LongPart(c)
+	fmt.Printf("C21-TIMING long-window part done at %v\n", time.Since(tStart))
+
 	// ---- history part, in memory: no-crash units, then every cut of every scenario
 	c.ParallelN(len(scenarios), "no-crash runs", func(_, i int) {
 		sc := scenarios[i]
@@ -274,7 +280,7 @@ func TestMC_C21(t *testing.T) {
 		if sc.NoA {
 			want = 0
 		}
-		c.Require(pre >= want && tot >= pre+6, "%s no-crash run found only %d prefix / %d total commits", sc.name(), pre, tot)
+		c.Require(c.Expired("guards") || c.Violations() > 0 || (pre >= want && tot >= pre+6), "%s no-crash run found only %d prefix / %d total commits", sc.name(), pre, tot)
 		histCuts++ // the no-crash unit
 		for cut := int64(1); cut <= tot; cut++ {
 			units = append(units, unit{sc: sc, cut: cut})
@@ -289,7 +295,7 @@ func TestMC_C21(t *testing.T) {
 	dwg.Wait()
 	var baseCuts int64
 	for i, kind := range kinds {
-		c.Require(totals[i] >= 6, "%s no-crash run found only %d commits", kind, totals[i])
+		c.Require(c.Expired("guards") || c.Violations() > 0 || totals[i] >= 6, "%s no-crash run found only %d commits", kind, totals[i])
 		c.Set("commits_in_workload_"+kind, totals[i])
 		baseCuts += totals[i] + 1
 	}
